@@ -117,6 +117,28 @@ pub fn campaigns(ctx: &Ctx) -> Stats {
             Some(exact_case(opi, &shapes[(p / ns) as usize], &shapes[(p % ns) as usize]))
         },
     ));
+    // forward values and refusals do not depend on which operands are tracked
+    st.merge(ctx.run_indexed("exhaustive-pairs-with-tracked-operands", ns * ns * NOPS, Some("the same 120x120x8 block with operand a, operand b or both tracked (cycling)"), |i| {
+        let opi = (i % NOPS) as usize;
+        let p = i / NOPS;
+        let mut c = exact_case(opi, &shapes[(p / ns) as usize], &shapes[(p % ns) as usize]);
+        let sub = 1 + (i % 3);
+        c.leaves[0].tracked = sub & 1 == 1;
+        c.leaves[1].tracked = sub & 2 == 2;
+        Some(c)
+    }));
+    // pairs whose dimensions divide each other without being equal or 1 must be refused as well
+    {
+        let mut bad: Vec<(Vec<usize>, Vec<usize>)> = vec![];
+        for m in 2..=4usize {
+            for k in 2..=3usize {
+                let n = m * k;
+                bad.extend([(vec![m], vec![n]), (vec![n], vec![m]), (vec![2, m], vec![n]), (vec![n], vec![2, m]), (vec![2, n], vec![m]), (vec![m, 3], vec![n, 3]), (vec![n, 3], vec![m, 3]), (vec![m, 3], vec![n, 1, 3]), (vec![3, m], vec![3, n]), (vec![2, 3, n], vec![3, m])]);
+            }
+        }
+        let nbad = bad.len() as u64;
+        st.merge(ctx.run_indexed("refused-divisible-dimensions", nbad * NOPS, None, |i| Some(exact_case((i % NOPS) as usize, &bad[(i / NOPS) as usize].0, &bad[(i / NOPS) as usize].1))));
+    }
     // the second operand is a reshaped VIEW of the first (shared storage, other dimensions): same rules apply
     let mut views: Vec<(Vec<usize>, Vec<usize>)> = vec![];
     for a in &shapes {
